@@ -571,7 +571,7 @@ func (repo *Repository) CheckHeader(ctx context.Context,
 
 	branch, height := repo.branches.Find(hash)
 	if branch != nil {
-		return height, branch == repo.longest, nil
+		return height, repo.isInLongest(hash, height), nil
 	}
 
 	// Lookup in larger map
@@ -580,6 +580,14 @@ func (repo *Repository) CheckHeader(ctx context.Context,
 	}
 
 	return -1, false, ErrUnknownHeader
+}
+
+// isInLongest returns true if the header with the specified hash and height is the tip of the most
+// proof of work chain or one of its ancestors. The ancestors of the tip can be held by parent
+// branches, so this can't be decided by which branch the header was found through.
+func (repo *Repository) isInLongest(hash bitcoin.Hash32, height int) bool {
+	at := repo.longest.AtHeight(height)
+	return at != nil && at.Hash.Equal(&hash)
 }
 
 // GetHeader returns the header with the specified hash with its block height and whether it is
@@ -596,7 +604,7 @@ func (repo *Repository) GetHeader(ctx context.Context,
 			return nil, -1, false, ErrHeaderNotAvailable
 		}
 
-		return data.Header, height, branch == repo.longest, nil
+		return data.Header, height, repo.isInLongest(hash, height), nil
 	}
 
 	// Lookup in larger map
